@@ -220,13 +220,19 @@ class Engine(ExprMixin, CallMixin, StmtMixin):
                 names.append(a.vararg.arg)
             if a.kwarg:
                 names.append(a.kwarg.arg)
-            for nm in names:
-                if nm not in c.params:
-                    raise SpecError(f"{c.key}: parameter {nm!r} of the real function has no type in the contract "
-                                    f"(contract out of date?)")
-            for nm in c.params:
-                if nm not in names:
+            extra = [nm for nm in names if nm not in c.params]
+            gone = [nm for nm in c.params if nm not in names]
+            vnames = {x.arg for x in (a.vararg, a.kwarg) if x is not None}
+            for nm in gone:
+                # a *args / **kwargs placeholder of the contract that the function now spells out is fine
+                if not (extra and c.params[nm] is T.NONE):
                     raise SpecError(f"{c.key}: contract parameter {nm!r} is not a parameter of the real function")
+            for nm in extra:
+                # a parameter the contract does not know: bound to an opaque None-typed value (its use in the body
+                # is then outside the subset and reported as such), so that a changed signature is not a checker error
+                c.params[nm] = T.NONE
+            for nm in gone:
+                del c.params[nm]
         for nm, pty in list(c.params.items()) + list(c.captures.items()) + list(c.ghost_locals.items()):
             if isinstance(pty, FnRef):
                 st = st.set_var(nm, V(T.FUN, FunV("contract", key=pty.key, name=nm, self_v=None)))
